@@ -19,6 +19,7 @@ import re
 from typing import Any, Dict, List, Optional, Set
 
 from ..core import AnalysisError, ClassInfo, Ctx, FuncInfo, body_without_docstring, calls_in, dotted, norm, walk_no_nested
+from ..fold import Unfoldable
 from ..layout import NotLayout, term_str
 from ..trace import Tracer, isinstance_branches, show_all
 from ..fold import Sym
@@ -66,28 +67,72 @@ def rule_r1(ctx: Ctx) -> None:
             if isinstance(n, ast.Attribute) and isinstance(n.value, ast.Name) and n.value.id == init.params[1] and n.attr in ("bit_length_set", "extent", "fields", "attributes"):
                 uses.append(norm(st)[:80])
     ctx.check(not uses, init.short, "inner type consulted only in the extent guard", "the layout must not flow from the inner type's fields", init.where(), uses)
-    # containers: what do they ask of a field's type?
-    allowed = {"bit_length_set", "alignment_requirement"}
-    sites = [
-        (SER + "_composite.StructureType", "aggregate_bit_length_sets", ("t", "field_types[0]")),
-        (SER + "_composite.StructureType", "iterate_fields_with_offsets", ("f.data_type",)),
-        (SER + "_composite.UnionType", "aggregate_bit_length_sets", ("x",)),
-        (SER + "_composite.UnionType", "_compute_tag_bit_length", ("x",)),
-        (SER + "_composite.UnionType", "iterate_fields_with_offsets", ("f.data_type",)),
-        (SER + "_array.FixedLengthArrayType", "__init__", ("self.element_type",)),
-        (SER + "_array.VariableLengthArrayType", "__init__", ("self.element_type",)),
-        (SER + "_array.FixedLengthArrayType", "enumerate_elements_with_offsets", ("self.element_type",)),
-    ]
-    for cname, mname, recvs in sites:
-        c = ctx.cls(cname)
-        m = c.methods.get(mname)
-        if m is None:
-            raise AnalysisError("anchor %s.%s missing" % (cname, mname))
-        asked: Set[str] = set()
-        for n in ast.walk(m.node):
-            if isinstance(n, ast.Attribute) and norm(n.value) in recvs:
-                asked.add(n.attr)
-        ctx.check(asked <= allowed and bool(asked), m.short, "asks %s of the nested type" % sorted(asked), "a container's layout may depend on a nested type only through its length set and alignment", m.where(), sorted(asked - allowed), nontrivial=False)
+    # containers: what do they ask of a nested type?  The layout functions are evaluated over nested types that answer
+    # only `bit_length_set` and `alignment_requirement`; anything else they consult is recorded.
+    asked: List[Tuple[str, str]] = []
+
+    class Nested(Sym):
+        def __getattr__(self, name: str) -> Any:
+            if name.startswith("__"):
+                raise AttributeError(name)
+            asked.append((self.__dict__.get("name", "?"), name))
+            raise Unfoldable("a nested type is consulted for `%s`" % name)
+
+    def nested_grid() -> List[List[Any]]:
+        return [[Nested(bit_length_set=TBls.var("T%d" % i, a), alignment_requirement=a, name="T%d" % i) for i, a in enumerate(als)] for als in ([1], [8], [1, 8], [8, 1, 1])]
+
+    from .c02 import aggregate_term
+    from ..absint import Evaluator, Raised, make_obj
+
+    sites = []
+    for cname in ("StructureType", "UnionType"):
+        c = ctx.cls(SER + "_composite." + cname)
+        for mname in ("aggregate_bit_length_sets", "iterate_fields_with_offsets"):
+            m = c.methods.get(mname)
+            if m is None:
+                raise AnalysisError("anchor %s.%s missing" % (cname, mname))
+            sites.append((c, m))
+    fa = ctx.cls(SER + "_array.FixedLengthArrayType")
+    m = fa.methods.get("enumerate_elements_with_offsets")
+    if m is None:
+        raise AnalysisError("anchor enumerate_elements_with_offsets missing")
+    sites.append((fa, m))
+    from .c02 import _layout_hook
+
+    for c, m in sites:
+        del asked[:]
+        errors = []
+        for ts in nested_grid():
+            if c.name == "UnionType" and len(ts) < 2:
+                continue
+            try:
+                if m.name == "aggregate_bit_length_sets":
+                    explore(lambda: aggregate_term(ctx, m, ts))
+                elif m.name == "iterate_fields_with_offsets":
+                    fields = [Sym(data_type=t, name="f%d" % i, _isa_=frozenset({"Field", "Attribute"})) for i, t in enumerate(ts)]
+                    me = make_obj(ctx, c, fields=fields, alignment_requirement=8, tag_field_type=Sym(bit_length=8, alignment_requirement=1))
+
+                    def run() -> Any:
+                        ev = Evaluator({m.params[0]: me, m.params[1]: TBls.var("BASE")}, repo, m.module, c, _layout_hook(ctx, m.module, c))
+                        ev.run(body_without_docstring(ctx.inl(m)))
+                        return ev.yielded
+
+                    explore(run)
+                else:
+                    me = make_obj(ctx, c, element_type=ts[0], capacity=3, alignment_requirement=ts[0].alignment_requirement)
+
+                    def run2() -> Any:
+                        ev = Evaluator({m.params[0]: me, m.params[1]: TBls.var("BASE")}, repo, m.module, c, _layout_hook(ctx, m.module, c))
+                        ev.run(body_without_docstring(ctx.inl(m)))
+                        return ev.yielded
+
+                    explore(run2)
+                ctx.count()
+            except (Unfoldable, Raised, NotLayout) as ex:
+                errors.append(str(ex))
+        if errors and not asked:
+            raise AnalysisError("%s: cannot evaluate over abstract nested types: %s" % (m.short, errors[0]))
+        ctx.check(not asked, m.short, "consults only bit_length_set / alignment_requirement of the nested types", "a container's layout may depend on a nested type only through its length set and alignment", m.where(), sorted(set(a for _, a in asked)), nontrivial=False)
 
 
 def rule_r2_r3(ctx: Ctx) -> None:
